@@ -14,6 +14,7 @@ RULE = ('every (grammar, shell) pair is compiled through the real pipeline (cgpr
         '{seq,|,||,[],...,word} and seeded random grammars (depth <= 6, <= 8 definitions, shuffled, '
         'shell-specific and built-in nonterminals). non-trivial = accepted by complgen and the '
         'reference automaton has >= 2 states; distinct by hash of (text, shell)')
+RULE += ' ' + 'Families added to the random source: many permuted within-word pairs, dependency DAGs of 4-9 definitions over a pool of 50 names, 2-4 literals under nested repetition / option / alternation at top level and inside one word.'
 ASSUMPTIONS = ['reference semantics cgv/refsem.py written from README/property statements',
                'description attachment is only judged for the documented shapes (determinate class)',
                'built-in PATH/DIRECTORY command text is abstracted to a BUILTIN symbol (C11 owns the text)']
